@@ -10,6 +10,10 @@ mod c05;
 mod tables;
 mod dump;
 mod store;
+mod vcdcmd;
+mod cut;
+mod entry;
+mod debugcmd;
 
 thread_local! {
     pub static LAST_PANIC: std::cell::RefCell<String> = std::cell::RefCell::new(String::new());
@@ -38,6 +42,11 @@ pub fn dispatch(line: &str) -> String {
     }
     match toks[0] {
         "tables" => tables::tables(&toks),
+        "dumpfile" => debugcmd::dumpfile(&toks),
+        "entryvcd" => entry::entryvcd(&toks),
+        "entryfile" => entry::entryfile(&toks),
+        "vcdcut" => cut::vcdcut(&toks),
+        "vcd" => vcdcmd::vcd(&toks),
         "store" => store::store(&toks),
         "getoffset" => c05::getoffset(&toks),
         "getoffset_full" => c05::getoffset_full(&toks),
